@@ -121,12 +121,15 @@ func raceQuery(t1 []Event, ai int, t2 []Event, bi int) (string, string) {
 		name  string
 		kind  string
 		mutex string
+		seq   int
 	}
 	trim := func(t []Event, keep int, prefix string) []ev {
 		var out []ev
 		for i, e := range t {
 			if e.Kind == "acq" || e.Kind == "rel" {
 				out = append(out, ev{name: fmt.Sprintf("%s%d", prefix, len(out)), kind: e.Kind, mutex: fmt.Sprintf("m%d_%s", e.Obj, e.Path)})
+			} else if e.Kind == "ast" || e.Kind == "ald" {
+				out = append(out, ev{name: fmt.Sprintf("%s%d", prefix, len(out)), kind: e.Kind, mutex: fmt.Sprintf("a%d_%s", e.Obj, e.Path), seq: e.Seq})
 			} else if i == keep {
 				out = append(out, ev{name: fmt.Sprintf("%s%d", prefix, len(out)), kind: "acc"})
 			}
@@ -143,7 +146,7 @@ func raceQuery(t1 []Event, ai int, t2 []Event, bi int) (string, string) {
 			if i > 0 {
 				fmt.Fprintf(&sb, "(assert (< %s %s))\n", es[i-1].name, e.name)
 			}
-			fmt.Fprintf(&sig, "%s:%s;", e.kind, e.mutex)
+			fmt.Fprintf(&sig, "%s:%s:%d;", e.kind, e.mutex, e.seq)
 		}
 		sig.WriteString("||")
 	}
@@ -167,6 +170,19 @@ func raceQuery(t1 []Event, ai int, t2 []Event, bi int) (string, string) {
 		for _, c2 := range sections(e2) {
 			if c1.mutex == c2.mutex {
 				fmt.Fprintf(&sb, "(assert (or (< %s %s) (< %s %s)))\n", e1[c1.rel].name, e2[c2.acq].name, e2[c2.rel].name, e1[c1.acq].name)
+			}
+		}
+	}
+	// reads-from of atomic loads is preserved: the observed store precedes the load
+	for _, pair := range [][2][]ev{{e1, e2}, {e2, e1}} {
+		for _, st := range pair[0] {
+			if st.kind != "ast" {
+				continue
+			}
+			for _, ld := range pair[1] {
+				if ld.kind == "ald" && ld.mutex == st.mutex && ld.seq == st.seq {
+					fmt.Fprintf(&sb, "(assert (< %s %s))\n", st.name, ld.name)
+				}
 			}
 		}
 	}
